@@ -228,6 +228,9 @@ func runC15(rep *TReport, raw json.RawMessage) {
 		}
 		if f("iat") == "present" {
 			claims["iat"] = now.Unix()
+			if f("exp") == "past" { // an assertion that expired was issued before it expired
+				claims["iat"] = now.Add(-2 * Tick).Unix()
+			}
 		}
 		if f("jti") == "fresh" {
 			claims["jti"] = freshJTI()
